@@ -134,10 +134,10 @@ BlockCells(shape, chunks, b) ==
 \* the same block built the way rechunk builds it: per axis, the concatenation of
 \* the listed pieces of the old blocks
 BlockFromPieces(shape, old, pieces, b) ==
-  LET pos(d) == PiecesPos(old[d], pieces[d][b[d]])
-      ext    == [d \in DOMAIN shape |-> Len(pos(d))]
-      tup    == IF ProdSeq(ext) = 0 THEN <<>> ELSE Cart(ext)
-  IN [t \in DOMAIN tup |-> Ravel(shape, [d \in DOMAIN shape |-> pos(d)[tup[t][d]]])]
+  LET pos == [d \in DOMAIN shape |-> PiecesPos(old[d], pieces[d][b[d]])]
+      ext == [d \in DOMAIN shape |-> Len(pos[d])]
+      tup == IF ProdSeq(ext) = 0 THEN <<>> ELSE Cart(ext)
+  IN [t \in DOMAIN tup |-> Ravel(shape, [d \in DOMAIN shape |-> pos[d][tup[t][d]]])]
 
 Known(c) == \A j \in DOMAIN c : c[j] >= 0
 MetaOK(obs) ==
